@@ -49,6 +49,10 @@ ASSUMPTIONS = [
     "the other runs of a batch when one fails - it returns that error and drops them - is not part of the property",
     "datasets contain late ticks (exchange time 30 s to a day older than the predecessor's); no order is opened on a late "
     "tick (the order stamp would be the clock's, not the tick's)",
+    "ids of backtests are labels, not keys: batches carry pairwise distinct ids, the empty id for every run (the repository "
+    "example's template), ids equal in pairs, and a few equal ids among distinct ones; judged: run_backtests returns "
+    "num_backtests = number of runs and one summary per run, position k holding run k's id and the summary of run k's own "
+    "engine (and, gated, equal to the summary of the same parameters run alone)",
     "the fatal-error path (engine stops on an unrecoverable execution-link error) is model-checked in the specification "
     "but not driven in the implementation: the property exempts it",
 ]
@@ -145,14 +149,19 @@ def tlc_scenarios(ctx, outcomes):
         base = {"n": n, "data_seed": data_seed, "recs": list(recs), "points": points}
         for vi, r in enumerate(runs):
             scns.append(dict(base, name="ta%d.%d" % (di, vi), mode="gated", workers=1, latency_ms=0, alone=True, runs=[r]))
+        def ids(pattern):
+            # ids are labels, not keys: distinct / all empty (the example's template id) / equal in pairs / a few equal
+            k = len(runs)
+            return [str(r) if pattern % 4 == 0 else "" if pattern % 4 == 1 else "sweep-%d" % (r // 2) if pattern % 4 == 2
+                    else ("template" if r in (0, k - 1) else str(r)) for r in range(k)]
         for wi, w in enumerate((1, 2, 4) if ctx.quick else (1, 2, 4, 16)):
             order = runs[wi % len(runs):] + runs[:wi % len(runs)]
-            scns.append(dict(base, name="tg%d.w%d" % (di, w), mode="gated", workers=w, latency_ms=wi % 2, alone=False, runs=order))
+            scns.append(dict(base, name="tg%d.w%d" % (di, w), mode="gated", workers=w, latency_ms=wi % 2, alone=False, ids=ids(wi + di + 1), runs=order))
             scns.append(dict(base, name="tm%d.w%d" % (di, w), mode="inmem", workers=w, latency_ms=(wi + 1) % 2, alone=False,
-                             points=[], runs=list(reversed(order))))
+                             points=[], ids=ids(wi + di + 2), runs=list(reversed(order))))
         # the same runs over a data source that takes (virtual) hours between items: paused tokio clock
         scns.append(dict(base, name="tp%d" % di, mode="paused", workers=1, latency_ms=di % 2, alone=False, points=[],
-                         gaps=("long", "short", "one", "tail")[di % 4], runs=runs))
+                         gaps=("long", "short", "one", "tail")[di % 4], ids=ids(di + 1), runs=runs))
     return scns, expected
 
 
@@ -243,6 +252,15 @@ def judge(ctx, scns, trace_path, results_path, expected, label):
             raise vlib.ToolError("scenario %s: stream() was called more often than there are runs" % scn)
         if any(r["account_reconnects"] for r in rs):
             raise vlib.ToolError("scenario %s: the mock account stream reconnected (broadcast lag) - timing, not a verdict" % scn)
+        # the batch result is a sequence with one summary per run (ids are labels, not keys)
+        shape = (rs[0]["batch_num_backtests"], rs[0]["batch_summaries"])
+        if shape[0] is not None:
+            dup = len(set(r["id"] for r in rs)) < len(rs)
+            stats["batches_with_equal_ids"] = stats.get("batches_with_equal_ids", 0) + (1 if dup and len(rs) > 1 else 0)
+            if shape != (len(rs), len(rs)):
+                ctx.violation("batch:size", "scenario %s (%s): run_backtests over %d runs with ids %s returned num_backtests = %d and %d "
+                              "summaries - one summary per run is due, whatever the ids" % (
+                                  scn, s["mode"], len(rs), json.dumps([r["id"] for r in rs]), shape[0], shape[1]), replay_of([scn]))
         # Isolation of the data streams: one stream per run, no stream seen by two runs
         tags = [tuple(r["tags"]) for r in rs]
         if s["mode"] == "gated":
@@ -270,6 +288,9 @@ def judge(ctx, scns, trace_path, results_path, expected, label):
                 elif "%s/%d" % (scn, r["run"]) not in seen_runs and r["consumed"] == r["source_fails_after"]:
                     stats["source_failures_ending_in_an_error"] = stats.get("source_failures_ending_in_an_error", 0) + 1
                 continue
+            if r["status"].startswith("missing:"):
+                ctx.violation("batch:summary-missing", "%s with id %s: %s" % (who, json.dumps(r["id"]), r["status"][9:]), replay_of([scn]))
+                continue
             if r["status"] != "ok":
                 # (healthy run of a run_backtests batch that returned the failing run's error: by
                 #  try_join_all no summary at all is returned - nothing to judge beyond the prefix
@@ -284,7 +305,8 @@ def judge(ctx, scns, trace_path, results_path, expected, label):
                               "the backtest returned" % (who, r["consumed"], r["n"]), replay_of([scn]))
             if not r["sumok"]:
                 ctx.violation("summary:%s:not-own-engine" % r["mode"], "%s: returned summary (id ok: %s) %s differs from the "
-                              "summary of the run's own final engine state %s" % (who, r["summary_id_ok"], json.dumps(r["summary"])[:400],
+                              "summary of the run's own final engine state %s" % (who, "%s (%s at position %d, run id %s)" % (
+                                  r["summary_id_ok"], json.dumps(r["summary_id"]), r["run"], json.dumps(r["id"])), json.dumps(r["summary"])[:400],
                                                                                  json.dumps(r["digest"])[:400]), replay_of([scn]))
             facts = r["facts"] or {"realised_pnl": []}
             closed = any(p["closed_positions"] != "0" for p in facts["realised_pnl"])
@@ -496,6 +518,8 @@ def check(ctx):
     st = ctx.cov["implementation_runs"]
     if not ctx.violations and (not st.get("source_failures_ending_in_an_error") or not st.get("healthy_runs_beside_a_failing_one")
                                or not st.get("runs_over_datasets_with_late_ticks")):
+        raise vlib.ToolError("vacuous run: %s" % st)
+    if not ctx.violations and not st.get("batches_with_equal_ids"):
         raise vlib.ToolError("vacuous run: %s" % st)
     if not ctx.violations and (st["fills"] == 0 or st["runs_with_closed_positions"] == 0 or st["gated_runs_compared_with_alone"] == 0 or st["tlc_outcomes_matched"] == 0):
         raise vlib.ToolError("vacuous run: %s" % st)
